@@ -20,6 +20,7 @@ import (
 	"encoding/hex"
 	"fmt"
 	"math/big"
+	"runtime/debug"
 	"sort"
 	"strconv"
 	"strings"
@@ -37,7 +38,6 @@ import (
 	"github.com/ethereum/go-ethereum/core"
 	ethtypes "github.com/ethereum/go-ethereum/core/types"
 	"github.com/ethereum/go-ethereum/crypto"
-	"github.com/stretchr/testify/require"
 
 	itu "github.com/EscanBE/evermint/v12/integration_test_util"
 	itutiltypes "github.com/EscanBE/evermint/v12/integration_test_util/types"
@@ -126,7 +126,7 @@ const (
 var malNames = []string{"none", "wrong-chain-id", "unprotected", "from!=signer", "tampered-sig", "stale-nonce", "future-nonce", "replay", "contract-sender", "price-below-floor", "cannot-pay-fee"}
 
 type world struct {
-	t                                               *testing.T
+	d                                               *driver // the driver: set-up blocks run through its per-tx / per-block oracles
 	c                                               *Chain
 	ids                                             map[common.Address]int64
 	addrs                                           []common.Address
@@ -154,6 +154,7 @@ type world struct {
 	mods                                            []common.Address // addresses of the module accounts (app/modules.go maccPerms): the bank refuses to credit them
 	modName                                         map[common.Address]string
 	distr                                           common.Address // x/distribution's module account: receives the fee collector's balance at BeginBlock
+	usable                                          bool           // the set-up ran to its end
 }
 
 // the module accounts of the application by name (written down here, not read from the application: the list of
@@ -195,9 +196,16 @@ func (w *world) cqID(a common.Address) string {
 	return CqZi(w.id(a))
 }
 
-func newWorld(t *testing.T) *world {
+// newWorld builds the universe of the driver.  Nothing here may abort the test: every expectation about the behaviour
+// of the code under test (a set-up transaction is executed, a contract exists afterwards, an account holds what it was
+// given) is an oracle hit `<property>/blocks/setup/<what>`; the blocks of the set-up (empty ones, the block of ten
+// deployments, later blocks of fresh rtK instances) go through driver.runBlock like every generated block, so their
+// transactions meet the same per-transaction and per-block oracles and are cases of the model as well.
+func newWorld(d *driver) *world {
+	t := d.t
 	c := NewChain(t, time.Time{})
-	w := &world{t: t, c: c, ids: map[common.Address]int64{}, maxGas: -1, kAlive: map[common.Address]bool{}, admitted: map[string]int64{}, lastSeq: map[common.Address]uint64{}, static: map[common.Address]bool{}}
+	w := &world{d: d, c: c, ids: map[common.Address]int64{}, maxGas: -1, kAlive: map[common.Address]bool{}, admitted: map[string]int64{}, lastSeq: map[common.Address]uint64{}, static: map[common.Address]bool{}}
+	d.w = w
 	ctx := c.Ctx()
 	if cp, err := c.App.ConsensusParamsKeeper.ParamsStore.Get(ctx); err == nil && cp.Block != nil {
 		w.maxGas = cp.Block.MaxGas
@@ -214,60 +222,100 @@ func newWorld(t *testing.T) *world {
 	w.distr = common.BytesToAddress(authtypes.NewModuleAddress("distribution"))
 	// no inflation: supply then changes only through transactions
 	mp, err := c.App.MintKeeper.Params.Get(ctx)
-	require.NoError(t, err)
+	must("mint-params", err)
 	mp.InflationMax, mp.InflationMin, mp.InflationRateChange = sdkmath.LegacyZeroDec(), sdkmath.LegacyZeroDec(), sdkmath.LegacyZeroDec()
-	require.NoError(t, c.App.MintKeeper.Params.Set(ctx, mp))
+	must("mint-params", c.App.MintKeeper.Params.Set(ctx, mp))
 	m, err := c.App.MintKeeper.Minter.Get(ctx)
-	require.NoError(t, err)
+	must("mint-params", err)
 	m.Inflation = sdkmath.LegacyZeroDec()
 	m.AnnualProvisions = sdkmath.LegacyZeroDec()
-	require.NoError(t, c.App.MintKeeper.Minter.Set(ctx, m))
+	must("mint-params", c.App.MintKeeper.Minter.Set(ctx, m))
 
 	for i := 1; i <= 5; i++ {
 		w.wallets = append(w.wallets, c.S.WalletAccounts.Number(i))
 		w.id(c.S.WalletAccounts.Number(i).GetEthAddress())
 	}
-	w.wallets = append(w.wallets, c.NewFundedAccount(1, new(big.Int).Mul(big.NewInt(3), pow10(18))))
+	w.wallets = append(w.wallets, w.newFundedAccount(1, new(big.Int).Mul(big.NewInt(3), pow10(18))))
 	w.id(w.wallets[5].GetEthAddress())
-	w.poor = c.NewFundedAccount(2, big.NewInt(1_000_000)) // keeps only dust
-	w.codeWallet = c.NewFundedAccount(3, pow10(18))
+	w.poor = w.newFundedAccount(2, big.NewInt(1_000_000)) // keeps only dust
+	w.codeWallet = w.newFundedAccount(3, pow10(18))
 	w.id(w.poor.GetEthAddress())
 	w.id(w.codeWallet.GetEthAddress())
 	w.eoa = map[common.Address]bool{w.poor.GetEthAddress(): true, w.codeWallet.GetEthAddress(): true}
 	for _, x := range w.wallets {
 		w.eoa[x.GetEthAddress()] = true
 	}
-	c.RunBlock(nil)
+	for i := 0; i < 3; i++ {
+		b := common.BigToAddress(big.NewInt(int64(0xBE0000 + i)))
+		w.bens = append(w.bens, b)
+	}
+	// the part of the universe that exists before any contract does: the set-up blocks are judged on it
+	for _, x := range w.wallets {
+		w.core = append(w.core, x.GetEthAddress())
+	}
+	w.core = append(w.core, w.poor.GetEthAddress(), w.codeWallet.GetEthAddress(), feeCollector(), w.evmModule)
+	w.id(feeCollector())
+	w.id(w.evmModule)
+	w.core = append(w.core, w.bens...)
+	for _, a := range w.mods {
+		if a != feeCollector() && a != w.evmModule {
+			w.id(a)
+			w.core = append(w.core, a)
+		}
+	}
+	d.runBlock("setup:first-empty-block", nil, true)
 
-	// deploy the fixed contracts with real transactions from wallet 6 (one block)
+	// deploy the fixed contracts with real transactions from wallet 6 (one block of ten transactions)
 	dep := w.wallets[5]
 	inits := [][]byte{deployer(rtSink), deployer(rtReverter), deployer(rtInvalid), deployer(rtLogger), deployer(rtStore), InitCode(buildFactory())}
 	vals := []int64{0, 0, 0, 0, 0, 0, 12345, 0, 777, 1_000_000_007}
+	kinds := []kind{kCreateOK, kCreateOK, kCreateOK, kCreateOK, kCreateOK, kCreateOK}
+	names := []string{"sink", "reverter", "invalid", "logger", "store", "factory"}
 	for i := 0; i < 4; i++ {
 		inits = append(inits, initK())
+		kinds = append(kinds, kDeployK)
+		names = append(names, fmt.Sprintf("K%d", i))
 	}
-	var raws [][]byte
-	var made []common.Address
+	var gen []*genTx
+	made := make([]common.Address, len(inits))
 	{
 		qctx := c.QueryCtx()
 		nonce := c.Nonce(qctx, dep.GetEthAddress())
 		for i, ic := range inits {
-			bz, _, err := c.EthTxBytes(dep, &ethtypes.LegacyTx{Nonce: nonce, GasPrice: new(big.Int).Mul(c.BaseFee(qctx), big.NewInt(2)), Gas: 400000, Data: ic, Value: big.NewInt(vals[i])})
-			require.NoError(t, err)
-			raws = append(raws, bz)
-			made = append(made, crypto.CreateAddress(dep.GetEthAddress(), nonce))
+			gen = append(gen, w.setupCreate(dep, nonce, ic, vals[i], kinds[i], names[i], c.BaseFee(qctx)))
+			made[i] = crypto.CreateAddress(dep.GetEthAddress(), nonce)
 			nonce++
 		}
 	}
-	res := c.RunBlock(raws)
-	for i, a := range made {
-		require.Equal(t, uint32(0), res.TxResults[i].Code, res.TxResults[i].Log)
-		require.NotEmpty(t, c.App.EvmKeeper.GetCode(c.QueryCtx(), c.App.EvmKeeper.GetCodeHash(c.QueryCtx(), a.Bytes())), "contract %d not deployed", i)
+	d.runBlock("setup:deploy-fixed-contracts", gen, true)
+	hasCode := func(a common.Address) bool {
+		q := c.QueryCtx()
+		return len(c.App.EvmKeeper.GetCode(q, c.App.EvmKeeper.GetCodeHash(q, a.Bytes()))) > 0
+	}
+	for i := range made {
+		if hasCode(made[i]) {
+			continue
+		}
+		// reported; then once more alone in a block (what failed at a later position of a block may work at the first),
+		// so that the generated blocks can still run and show the defect in their own observations
+		d.hitAll("setup/contract-not-deployed", fmt.Sprintf("set-up contract %q (transaction %d of the set-up block of %d deployments) has no code after the block", names[i], i, len(made)),
+			map[string]interface{}{"contract": names[i], "pos": i, "tx": gen[i]})
+		qctx := c.QueryCtx()
+		nonce := c.Nonce(qctx, dep.GetEthAddress())
+		g := w.setupCreate(dep, nonce, inits[i], vals[i], kinds[i], names[i], c.BaseFee(qctx))
+		made[i] = crypto.CreateAddress(dep.GetEthAddress(), nonce)
+		d.runBlock("setup:deploy-again-alone:"+names[i], []*genTx{g}, true)
+		if !hasCode(made[i]) {
+			panic(setupFailure{"contract-not-deployed-even-alone", fmt.Sprintf("set-up contract %q has no code after a block holding only its deployment", names[i])})
+		}
+	}
+	for _, a := range made {
 		w.id(a)
 	}
 	w.sink, w.reverter, w.invalid, w.logger, w.store, w.factory = made[0], made[1], made[2], made[3], made[4], made[5]
-	w.ks = append(w.ks, made[6:]...)
+	w.ks = nil
 	for _, a := range made[6:] {
+		w.ks = append(w.ks, a)
 		w.kAlive[a] = true
 	}
 	for _, a := range made[:5] { // the factory's nonce moves with every CREATE2
@@ -280,47 +328,84 @@ func newWorld(t *testing.T) *world {
 		c.App.EvmKeeper.SetCode(ctx, ch.Bytes(), rtSink)
 		c.App.EvmKeeper.SetCodeHash(ctx, w.codeWallet.GetEthAddress(), ch)
 	}
-	for i := 0; i < 3; i++ {
-		b := common.BigToAddress(big.NewInt(int64(0xBE0000 + i)))
-		w.bens = append(w.bens, b)
-	}
-	w.id(feeCollector())
-	w.id(w.evmModule)
-	for _, x := range w.wallets {
-		w.core = append(w.core, x.GetEthAddress())
-	}
-	w.core = append(w.core, w.poor.GetEthAddress(), w.codeWallet.GetEthAddress(), w.sink, w.reverter, w.invalid, w.logger, w.store, w.factory, feeCollector(), w.evmModule)
-	w.core = append(w.core, w.bens...)
-	for _, a := range w.mods {
-		if a != feeCollector() && a != w.evmModule {
-			w.id(a)
-			w.core = append(w.core, a)
-		}
-	}
+	w.core = append(w.core, w.sink, w.reverter, w.invalid, w.logger, w.store, w.factory)
 	for s := uint64(0); s < nSalts; s++ {
 		w.core = append(w.core, c2Address(w.factory, s))
 	}
 	// other denominations: every wallet owns all of them; some contracts, future CREATE2 addresses and passive
 	// beneficiaries hold them from the start
 	for i, x := range w.wallets {
-		a := sdk.AccAddress(x.GetEthAddress().Bytes())
-		c.Fund(a, "ufour", big.NewInt(int64(1_000_000_000+i)))
+		a := x.GetEthAddress()
+		w.fund(a, "ufour", big.NewInt(int64(1_000_000_000+i)))
 		if i == 5 {
-			c.Fund(a, "utwo", pow10(12))
-			c.Fund(a, "uthree", pow10(12))
+			w.fund(a, "utwo", pow10(12))
+			w.fund(a, "uthree", pow10(12))
 		}
 	}
 	for i, a := range w.ks {
-		c.Fund(sdk.AccAddress(a.Bytes()), otherDenoms[i%len(otherDenoms)], big.NewInt(int64(1000+i)))
+		w.fund(a, otherDenoms[i%len(otherDenoms)], big.NewInt(int64(1000+i)))
 		if i%2 == 0 {
-			c.Fund(sdk.AccAddress(a.Bytes()), otherDenoms[(i+1)%len(otherDenoms)], big.NewInt(int64(50+i)))
+			w.fund(a, otherDenoms[(i+1)%len(otherDenoms)], big.NewInt(int64(50+i)))
 		}
 	}
-	c.Fund(sdk.AccAddress(c2Address(w.factory, 0).Bytes()), "utwo", big.NewInt(31))
-	c.Fund(sdk.AccAddress(c2Address(w.factory, 1).Bytes()), "ufour", big.NewInt(47))
-	c.Fund(sdk.AccAddress(w.bens[0].Bytes()), "uthree", big.NewInt(5)) // holds nothing else: not empty, although its EVM balance is zero
-	c.RunBlock(nil)
+	w.fund(c2Address(w.factory, 0), "utwo", big.NewInt(31))
+	w.fund(c2Address(w.factory, 1), "ufour", big.NewInt(47))
+	w.fund(w.bens[0], "uthree", big.NewInt(5)) // holds nothing else: not empty, although its EVM balance is zero
+	d.runBlock("setup:empty-block-after-funding", nil, true)
+	w.usable = true
 	return w
+}
+
+// one contract creation of the set-up as a generated transaction (described like any other: the reference
+// interpreter, the oracles and the model see a creation of kind k)
+func (w *world) setupCreate(dep *itutiltypes.TestAccount, nonce uint64, init []byte, value int64, k kind, name string, base *big.Int) *genTx {
+	from := dep.GetEthAddress()
+	g := &genTx{Kind: "setup:" + kindNames[k] + ":" + name, kind: k, Mal: malNames[mNone], Sender: w.id(from), from: from, From: from.Hex()}
+	bz, msg, err := w.c.EthTxBytes(dep, &ethtypes.LegacyTx{Nonce: nonce, GasPrice: new(big.Int).Mul(base, big.NewInt(2)), Gas: 400000, Data: init, Value: big.NewInt(value)})
+	must("build-deployment-tx", err)
+	w.describe(g, msg, bz, base)
+	return g
+}
+
+// fund mints coins to an address directly in the commit multistore (between blocks); a refusal is a set-up hit
+func (w *world) fund(a common.Address, denom string, amt *big.Int) bool {
+	c := w.c
+	ctx := c.Ctx()
+	cs := sdk.NewCoins(sdk.NewCoin(denom, sdkmath.NewIntFromBigInt(amt)))
+	acc := sdk.AccAddress(a.Bytes())
+	before := c.Bal(ctx, acc, denom)
+	err := c.App.BankKeeper.MintCoins(ctx, evmtypes.ModuleName, cs)
+	if err == nil {
+		if err = c.App.BankKeeper.SendCoinsFromModuleToAccount(ctx, evmtypes.ModuleName, acc, cs); err != nil {
+			_ = c.App.BankKeeper.BurnCoins(ctx, evmtypes.ModuleName, cs) // leave nothing behind on the module account
+		}
+	}
+	desc := map[string]interface{}{"account": a.Hex(), "denom": denom, "amount": amt.String()}
+	if err != nil {
+		w.d.hitAll("setup/fund-refused", "minting "+amt.String()+denom+" to "+a.Hex()+" between blocks: "+trunc(err.Error(), 200), desc)
+		return false
+	}
+	if got := new(big.Int).Sub(c.Bal(c.Ctx(), acc, denom), before); got.Cmp(amt) != 0 {
+		w.d.hitAll("setup/funded-balance-not-as-given", fmt.Sprintf("%s was given %s%s between blocks, its balance changed by %s", a.Hex(), amt, denom, got), desc)
+		return false
+	}
+	return true
+}
+
+// newFundedAccount: a deterministic key, an auth account and amt of the EVM denomination (between blocks)
+func (w *world) newFundedAccount(n int, amt *big.Int) *itutiltypes.TestAccount {
+	c := w.c
+	a := c.NewKeyAccount(n)
+	ctx := c.Ctx()
+	addr := sdk.AccAddress(a.GetEthAddress().Bytes())
+	if c.App.AccountKeeper.GetAccount(ctx, addr) == nil {
+		c.App.AccountKeeper.SetAccount(ctx, c.App.AccountKeeper.NewAccountWithAddress(ctx, addr))
+	}
+	w.fund(a.GetEthAddress(), c.Denom(), amt)
+	if c.App.AccountKeeper.GetAccount(c.Ctx(), addr) == nil {
+		panic(setupFailure{"account-not-created", "the auth keeper does not return the account it was just given: " + a.GetEthAddress().Hex()})
+	}
+	return a
 }
 
 // recipient of a bank send of other denominations: wherever a later Ethereum transaction will create, destroy or touch
@@ -411,20 +496,20 @@ func (w *world) prefund(r *Rng, gen []*genTx, count func(string)) {
 // ---------------------------------------------------------------- generated transactions
 
 type genTx struct {
-	Kind       string `json:"kind"`
-	Mal        string `json:"malformation"`
-	Sender     int64  `json:"sender"`
-	From       string `json:"from"`
-	To         string `json:"to,omitempty"`
-	Dyn        bool   `json:"dynamic_fee"`
-	Price      string `json:"price_or_cap"`
-	Tip        string `json:"tip"`
-	Gas        uint64 `json:"gas"`
-	Nonce      uint64 `json:"nonce"`
-	Value      string `json:"value"`
-	Script     string `json:"script,omitempty"`
-	Raw        string `json:"raw_tx,omitempty"`
-	AccessList int    `json:"access_list_entries,omitempty"`
+	Kind       string     `json:"kind"`
+	Mal        string     `json:"malformation"`
+	Sender     int64      `json:"sender"`
+	From       string     `json:"from"`
+	To         string     `json:"to,omitempty"`
+	Dyn        bool       `json:"dynamic_fee"`
+	Price      string     `json:"price_or_cap"`
+	Tip        string     `json:"tip"`
+	Gas        uint64     `json:"gas"`
+	Nonce      uint64     `json:"nonce"`
+	Value      string     `json:"value"`
+	Script     string     `json:"script,omitempty"`
+	Raw        string     `json:"raw_tx,omitempty"`
+	AccessList int        `json:"access_list_entries,omitempty"`
 	Sends      []bankSend `json:"bank_sends,omitempty"` // Cosmos bank MsgSend coins, in execution order
 
 	raw    []byte
@@ -478,6 +563,7 @@ type obsTx struct {
 	minted     *big.Int
 	burned     *big.Int
 	ethTxEvent bool
+	badReceipt string // the receipt event could not be decoded
 	// the same for every other denomination
 	fdelta           map[string]map[common.Address]*big.Int
 	fminted, fburned coins
@@ -544,29 +630,20 @@ func (w *world) saltOf(a common.Address) int {
 	return -1
 }
 
-// one set-up block deploying n fresh instances of rtK (not a case)
+// one set-up block deploying n fresh instances of rtK: a block like any other (oracles, model case); the instances
+// that exist afterwards are picked up by runBlock's bookkeeping of rtK instances
 func (w *world) deployKs(n int) {
 	c := w.c
 	dep := w.wallets[5]
 	qctx := c.QueryCtx()
 	nonce := c.Nonce(qctx, dep.GetEthAddress())
 	vals := []int64{12345, 0, 777, 1_000_000_007, 5}
-	var raws [][]byte
-	var made []common.Address
+	var gen []*genTx
 	for i := 0; i < n; i++ {
-		bz, _, err := c.EthTxBytes(dep, &ethtypes.LegacyTx{Nonce: nonce, GasPrice: new(big.Int).Mul(c.BaseFee(qctx), big.NewInt(2)), Gas: 400000, Data: initK(), Value: big.NewInt(vals[i%len(vals)])})
-		require.NoError(w.t, err)
-		raws = append(raws, bz)
-		made = append(made, crypto.CreateAddress(dep.GetEthAddress(), nonce))
+		gen = append(gen, w.setupCreate(dep, nonce, initK(), vals[i%len(vals)], kDeployK, "K", c.BaseFee(qctx)))
 		nonce++
 	}
-	res := c.RunBlock(raws)
-	for i, a := range made {
-		require.Equal(w.t, uint32(0), res.TxResults[i].Code, res.TxResults[i].Log)
-		w.id(a)
-		w.ks = append(w.ks, a)
-		w.kAlive[a] = true
-	}
+	w.d.runBlock("setup:deploy-K-block", gen, true)
 }
 
 func (w *world) freshAddr(r *Rng) common.Address {
@@ -729,7 +806,7 @@ func (w *world) describe(g *genTx, msg *evmtypes.MsgEthereumTx, raw []byte, base
 		gp, tp, cp = big.NewInt(0), final.GasTipCap(), final.GasFeeCap()
 	}
 	fintr, err := core.IntrinsicGas(final.Data(), final.AccessList(), final.To() == nil, true, true)
-	require.NoError(w.t, err)
+	must("intrinsic-gas", err)
 	g.coqT = fmt.Sprintf("(mkTx %s %s %s %s %s %s %s %s %s %s %s %s)", CqZi(w.id(from)), recS, CqBool(final.Protected()), CqBool(isDyn),
 		CqZ(gp), CqZ(tp), CqZ(cp), CqZu(final.Gas()), CqZu(final.Nonce()), CqZ(final.Value()), CqBool(final.To() == nil), CqZu(fintr))
 	g.isEth, g.raw, g.hash = true, raw, final.Hash()
@@ -912,7 +989,7 @@ func (w *world) genBlock(r *Rng, n int) []*genTx {
 				msgs = append(msgs, banktypes.NewMsgSend(sdk.AccAddress(from.Bytes()), sdk.AccAddress(to.Bytes()), cs))
 			}
 			bz, err := w.cosmosTx(sender, useSeq, 400000, new(big.Int).Mul(floor, big.NewInt(2)), msgs...)
-			require.NoError(w.t, err)
+			must("build-cosmos-tx", err)
 			if useSeq == seq {
 				pending[from] = seq + 1
 			}
@@ -1104,7 +1181,7 @@ func (w *world) genBlock(r *Rng, n int) []*genTx {
 			g.AccessList = len(al)
 		}
 		intr, err := core.IntrinsicGas(data, al, to == nil, true, true)
-		require.NoError(w.t, err)
+		must("intrinsic-gas", err)
 		var gas uint64
 		if ample {
 			switch r.Intn(8) {
@@ -1174,11 +1251,11 @@ func (w *world) genBlock(r *Rng, n int) []*genTx {
 			signKey = w.wallets[(r.Intn(len(w.wallets)-1)+1+indexOf(w.wallets, sender))%len(w.wallets)]
 		}
 		ecdsaKey, err := signKey.PrivateKey.ToECDSA()
-		require.NoError(w.t, err)
+		must("sign-eth-tx", err)
 		ethTx, err := ethtypes.SignTx(ethtypes.NewTx(txData), signer, ecdsaKey)
-		require.NoError(w.t, err)
+		must("sign-eth-tx", err)
 		msg := &evmtypes.MsgEthereumTx{}
-		require.NoError(w.t, msg.FromEthereumTx(ethTx, from))
+		must("wrap-eth-tx", msg.FromEthereumTx(ethTx, from))
 		if mal == mTamperedSig {
 			// change the payload after signing: the value by 1, keeping V,R,S
 			signed := msg.AsTransaction()
@@ -1193,10 +1270,10 @@ func (w *world) genBlock(r *Rng, n int) []*genTx {
 			default:
 				td = &ethtypes.LegacyTx{Nonce: nonce, GasPrice: price, Gas: gas, To: to, Value: nv, Data: data, V: v, R: rr, S: ss}
 			}
-			require.NoError(w.t, msg.FromEthereumTx(ethtypes.NewTx(td), from))
+			must("wrap-eth-tx", msg.FromEthereumTx(ethtypes.NewTx(td), from))
 		}
 		raw, err := c.WrapEthMsg(msg)
-		require.NoError(w.t, err)
+		must("wrap-eth-tx", err)
 		w.describe(g, msg, raw, base)
 		switch mal {
 		case mWrongChainID, mUnprotected, mFromNotSigner, mTamperedSig, mContractSender:
@@ -1364,9 +1441,14 @@ func (w *world) observe(res *abci.ExecTxResult) *obsTx {
 			}
 		case evmtypes.EventTypeTxReceipt:
 			bz, err := hexutil.Decode(at[evmtypes.AttributeKeyReceiptMarshalled])
-			require.NoError(w.t, err)
 			rc := &ethtypes.Receipt{}
-			require.NoError(w.t, rc.UnmarshalBinary(bz))
+			if err == nil {
+				err = rc.UnmarshalBinary(bz)
+			}
+			if err != nil { // an observation about the code under test, not a reason to stop: no usable receipt
+				o.badReceipt = trunc(err.Error(), 160)
+				continue
+			}
 			o.Status, o.Cum, o.NLogs, o.Bloom, o.LogsRlp = int64(rc.Status), int64(rc.CumulativeGasUsed), int64(len(rc.Logs)), rc.Bloom, rc.Logs
 			o.RGas, _ = strconv.ParseInt(at[evmtypes.AttributeKeyReceiptGasUsed], 10, 64)
 			if v, err := strconv.ParseInt(at[evmtypes.AttributeKeyReceiptTxIndex], 10, 64); err == nil && o.TxIdx != v {
@@ -1493,8 +1575,8 @@ type snap struct {
 	supply  *big.Int
 	base    *big.Int
 	gminDec *big.Int
-	allSup  sdk.Coins // total supply of every denomination
-	isMod   map[common.Address]bool // the account exists and is a module account
+	allSup  sdk.Coins                // total supply of every denomination
+	isMod   map[common.Address]bool  // the account exists and is a module account
 	fbal    map[common.Address]coins // balances in the other denominations
 }
 
@@ -1577,6 +1659,82 @@ func rawKey(raw []byte) string {
 	return string(h[:])
 }
 
+// ---------------------------------------------------------------- robustness: nothing the code under test does stops the driver
+
+type driver struct {
+	t     *testing.T
+	side  *Sidecar
+	cases *CasesFile
+	w     *world
+}
+
+// the properties this driver serves: a failed expectation of the set-up, or a panic coming out of code of the repository
+// that the harness calls directly, weakens every one of their checks and is reported under each
+var servedProps = []string{"C04", "C05", "C06", "C13", "C09"}
+
+func (d *driver) hitAll(suffix, msg string, desc interface{}) {
+	for _, p := range servedProps {
+		d.side.Hit(p+"/blocks/"+suffix, msg, desc)
+	}
+}
+
+// an expectation about the code under test that the set-up or the generator relies on did not hold
+type setupFailure struct{ what, msg string }
+
+func must(what string, err error) {
+	if err != nil {
+		panic(setupFailure{what, trunc(err.Error(), 300)})
+	}
+}
+
+// guard runs one unit of work (the world set-up, one generated block).  A failed set-up expectation becomes the hit
+// <property>/blocks/setup/<what>, any other panic <property>/blocks/driver-panic/<message class>; the unit is skipped
+// and the driver goes on.  Only the harness' own output files may stop the test.
+func (d *driver) guard(where string, f func()) (ok bool) {
+	defer func() {
+		p := recover()
+		if p == nil {
+			return
+		}
+		ok = false
+		if sf, is := p.(setupFailure); is {
+			d.hitAll("setup/"+sf.what, where+": "+sf.msg, map[string]interface{}{"where": where})
+			return
+		}
+		msg := fmt.Sprint(p)
+		if e, is := p.(error); is {
+			msg = e.Error()
+		}
+		d.hitAll("driver-panic/"+panicClass(msg), where+": panic: "+trunc(msg, 300), map[string]interface{}{"where": where, "stack": trunc(string(debug.Stack()), 3000)})
+	}()
+	f()
+	return true
+}
+
+// class of a panic message: its first words without numbers, addresses and punctuation
+func panicClass(msg string) string {
+	if i := strings.IndexByte(msg, '\n'); i >= 0 {
+		msg = msg[:i]
+	}
+	var words []string
+	for _, wd := range strings.FieldsFunc(msg, func(r rune) bool {
+		return !(r >= 'a' && r <= 'z' || r >= 'A' && r <= 'Z' || r >= '0' && r <= '9')
+	}) {
+		hasDigit := strings.IndexAny(wd, "0123456789") >= 0
+		if hasDigit || len(wd) > 24 {
+			continue
+		}
+		words = append(words, strings.ToLower(wd))
+		if len(words) == 7 {
+			break
+		}
+	}
+	if len(words) == 0 {
+		return "unnamed"
+	}
+	return strings.Join(words, "-")
+}
+
 func TestDriverBlocks(t *testing.T) {
 	dir := OutDir(t)
 	seed := EnvSeed()
@@ -1586,12 +1744,31 @@ func TestDriverBlocks(t *testing.T) {
 		"case = one block of 0-10 generated transactions (15 kinds incl. destruction scripts and Cosmos bank sends of 1-3 other denominations to wallets / contracts / coming CREATE and CREATE2 addresses x fee variants x gas limits x values x 10 malformations + replays of admitted bytes, consensus max_gas varied; other denominations minted to addresses of the coming block between blocks) executed by FinalizeBlock/Commit on the real app, "+
 			"with the committed pre/post state (every denomination) of the block's address universe; non-trivial = block with >= 2 Ethereum txs that passed the ante handler and >= 2 distinct outcome classes; distinct by (kinds, malformations, classes, gas limits)")
 	cases := NewCases(dir, "From Evm Require Import TxPipe TxPipeExt TxPipeDenom CorrTxPipe.", "tp_mismatches")
-	w := newWorld(t)
-	c := w.c
-	fc := feeCollector()
-
-	for b := 0; b < nBlocks; b++ {
+	d := &driver{t: t, side: side, cases: cases}
+	// whatever the code under test does, the observations made so far are written out
+	d.guard("world set-up", func() { newWorld(d) })
+	failedInARow := 0
+	for b := 0; b < nBlocks && d.w != nil && d.w.usable; b++ {
 		r := rng.Fork(uint64(b))
+		if d.guard(fmt.Sprintf("generated block %d", b), func() { d.genCase(r) }) {
+			failedInARow = 0
+			continue
+		}
+		side.Count("case-skipped")
+		if failedInARow++; failedInARow >= 6 {
+			d.hitAll("setup/world-abandoned", fmt.Sprintf("%d blocks in a row could not be generated or executed; stopped after generated block %d of %d", failedInARow, b, nBlocks), nil)
+			break
+		}
+	}
+	cases.Write(t, 25)
+	side.Write(t, dir)
+}
+
+// one generated block: governance actions between blocks, generation, execution and oracles
+func (d *driver) genCase(r *Rng) {
+	side, w := d.side, d.w
+	c := w.c
+	{
 		{
 			alive := 0
 			for _, a := range w.ks {
@@ -1630,14 +1807,26 @@ func TestDriverBlocks(t *testing.T) {
 			default:
 				p.MinGasPrice = feemarkettypes.DefaultMinGasPrice
 			}
-			require.NoError(t, c.App.FeeMarketKeeper.SetParams(ctx, p))
+			must("feemarket-params", c.App.FeeMarketKeeper.SetParams(ctx, p))
 		}
 		nTx := r.Intn(11)
 		gen := w.genBlock(r, nTx)
 		if r.Chance(60) {
 			w.prefund(r, gen, side.Count)
 		}
+		d.runBlock("generated", gen, false)
+	}
+}
 
+// runBlock executes one block of described transactions on the real application and holds every observation against
+// the reference: per transaction (supply, fee collector, EVM module account, admission, gas, indices) and per block
+// (committed balances, supplies, sequences, bloom); the block becomes a case of the model.  Set-up blocks (setup = true)
+// come through here too: a position-dependent defect shows first in their multi-transaction blocks.
+func (d *driver) runBlock(label string, gen []*genTx, setup bool) {
+	side, cases, w := d.side, d.cases, d.w
+	c := w.c
+	fc := feeCollector()
+	{
 		// the block's address universe
 		var uni []common.Address
 		{
@@ -1673,8 +1862,13 @@ func TestDriverBlocks(t *testing.T) {
 			raws = append(raws, g.raw)
 		}
 		height := c.Height
-		res := c.RunBlock(raws)
-		require.Equal(t, len(raws), len(res.TxResults))
+		res, err := c.RunBlockE(raws)
+		if err != nil {
+			panic(setupFailure{"block-not-executed", fmt.Sprintf("%s at height %d (%d transactions): FinalizeBlock/Commit returned an error: %s", label, height, len(raws), trunc(err.Error(), 300))})
+		}
+		if len(raws) != len(res.TxResults) {
+			panic(setupFailure{"block-results-incomplete", fmt.Sprintf("%s at height %d: %d transactions, %d results", label, height, len(raws), len(res.TxResults))})
+		}
 		postctx := c.QueryCtx()
 		post := w.snapshot(postctx, uni)
 
@@ -1687,7 +1881,7 @@ func TestDriverBlocks(t *testing.T) {
 				st.isK[a] = true
 			}
 		}
-		st.bal[fc] = big.NewInt(0) // x/distribution sweeps the fee collector at BeginBlock ...
+		st.bal[fc] = big.NewInt(0)                                        // x/distribution sweeps the fee collector at BeginBlock ...
 		st.bal[w.distr] = new(big.Int).Add(pre.bal[w.distr], pre.bal[fc]) // ... into its own module account
 		for _, a := range w.mods {
 			st.blocked[a] = true
@@ -1750,7 +1944,14 @@ func TestDriverBlocks(t *testing.T) {
 			tr := res.TxResults[i]
 			o := w.observe(tr)
 			key := rawKey(g.raw)
-			desc := map[string]interface{}{"height": height, "pos": i, "tx": g, "class": o.Class, "code": tr.Code, "codespace": tr.Codespace, "gas_wanted": o.GW, "gas_used": o.GU, "log": trunc(tr.Log, 200), "max_gas": w.maxGas}
+			desc := map[string]interface{}{"block": label, "height": height, "pos": i, "block_txs": len(gen), "tx": g, "class": o.Class, "code": tr.Code, "codespace": tr.Codespace, "gas_wanted": o.GW, "gas_used": o.GU, "log": trunc(tr.Log, 200), "max_gas": w.maxGas}
+			if o.badReceipt != "" {
+				side.Hit("C13/blocks/receipt-event-undecodable", "the receipt carried by the transaction's events cannot be decoded: "+o.badReceipt, desc)
+			}
+			if setup && o.Class != "EXEC_OK" {
+				// the set-up only sends transactions that must be executed successfully wherever they stand in their block
+				d.hitAll("setup/tx-not-executed", fmt.Sprintf("%s: transaction %d of %d (%s) ended in class %s: %s", label, i, len(gen), g.Kind, o.Class, trunc(tr.Log, 240)), desc)
+			}
 			if !g.isEth {
 				// the SDK lane is observed, not modelled: fee actually charged (bank events) and whether the sequence advanced
 				paid := big.NewInt(0)
@@ -2262,7 +2463,7 @@ func TestDriverBlocks(t *testing.T) {
 		}
 		// ---------------- block-level oracles
 		bdesc := func(extra map[string]interface{}) map[string]interface{} {
-			m := map[string]interface{}{"height": height, "max_gas": w.maxGas, "txs": gen, "observed_classes": obsStr}
+			m := map[string]interface{}{"block": label, "height": height, "max_gas": w.maxGas, "txs": gen, "observed_classes": obsStr}
 			for k, v := range extra {
 				m[k] = v
 			}
@@ -2421,12 +2622,13 @@ func TestDriverBlocks(t *testing.T) {
 			kinds = append(kinds, g.Kind+"/"+g.Mal+"/"+strconv.FormatUint(g.Gas, 10))
 		}
 		bd := blockDesc{Height: height, MaxGas: w.maxGas, Txs: gen, Obs: obsStr}
-		side.Case(b, strings.Join(kinds, ",")+"|"+strings.Join(sorted, ","), passedAnte >= 2 && len(classes) >= 2, bd)
+		side.Case(cases.Len()-1, strings.Join(kinds, ",")+"|"+strings.Join(sorted, ","), passedAnte >= 2 && len(classes) >= 2, bd) // index = position among the emitted cases
+		if setup {
+			side.Count("setup-block-as-case:" + strings.SplitN(strings.TrimPrefix(label, "setup:"), ":", 2)[0])
+		}
 		side.Count(fmt.Sprintf("block_txs:%d", len(gen)))
 		side.Count("max_gas:" + mgClass(w.maxGas))
 	}
-	cases.Write(t, 25)
-	side.Write(t, dir)
 }
 
 // denominations named by the observation or the expectation, sorted
@@ -2537,11 +2739,11 @@ func (w *world) setMaxGas(m int64) {
 	}
 	ctx := w.c.Ctx()
 	cp, err := w.c.App.ConsensusParamsKeeper.ParamsStore.Get(ctx)
-	require.NoError(w.t, err)
+	must("consensus-params", err)
 	if cp.Block == nil {
 		cp.Block = &tmproto.BlockParams{MaxBytes: 22020096}
 	}
 	cp.Block.MaxGas = m
-	require.NoError(w.t, w.c.App.ConsensusParamsKeeper.ParamsStore.Set(ctx, cp))
+	must("consensus-params", w.c.App.ConsensusParamsKeeper.ParamsStore.Set(ctx, cp))
 	w.maxGas = m
 }
